@@ -67,7 +67,7 @@ PLAN = {
                 explanation='Result fits the new layout (size, both alignments), Err => nothing changed, in-place moves stay inside the old block and never overlap source and '
                             'destination, fresh blocks are disjoint from the old one; deallocate of a non-last block is a no-op. The Allocator glue (slice length, zeroed tail) and '
                             'byte preservation are bounded Kani harnesses.'),
-    'C13': dict(v=['rawvec', 'dedup'], level='model_checking',
+    'C13': dict(v=['rawvec', 'dedup', 'vecops'], level='model_checking',
                 k_quick=['k_vec_insert_remove', 'k_vec_swap_remove_truncate', 'k_vec_drain', 'k_vec_append_split_off', 'k_vec_push_pop_grow', 'k_vec_shrink_moves', 'k_vec_insert_oob', 'k_drop_dedup'],
                 k_thorough=['k_vec_insert_remove_ends', 'k_vec_drain_wide', 'k_vec_reserve_shrink_small', 'k_vec_drain_filter', 'k_vec_zst', 'k_ovf_vec', 'k_vec_remove_oob',
                             'k_vec_swap_remove_oob', 'k_vec_split_off_oob', 'k_vec_drain_oob', 'k_vec_drain_inverted', 'k_drop_dedup', 'k_box_from_vec_then_alloc'],
@@ -87,7 +87,7 @@ PLAN = {
                             'chunk of the lossy decoder on all inputs of length <= 4 and for the 256-entry width table (loop-free / fully symbolic); replace_range\'s boundary '
                             'assertions are proved by Verus to put both ends of the removed byte range on char boundaries for Included/Excluded/Unbounded ends. from_utf16_in, '
                             'retain, pop and replace_range as whole operations exceeded the CBMC budget and are not decided.'),
-    'C15': dict(v=['drainfilter', 'intoiter', 'rawvec', 'dedup'], level='model_checking',
+    'C15': dict(v=['drainfilter', 'intoiter', 'rawvec', 'dedup', 'vecops'], level='model_checking',
                 k_quick=['k_drop_vec_ops', 'k_drop_iters', 'k_drop_forgotten_iterators', 'k_drop_no_destructors', 'k_drop_dedup', 'k_drop_zst'],
                 k_thorough=['k_drop_dedup_retain', 'k_box_drop_once', 'k_box_slices_arrays'],
                 technique='bounded model checking (Kani) with a per-element drop ledger on the real Vec/Box code',
@@ -101,7 +101,7 @@ PLAN = {
                 explanation='BOUNDED in type instances (u32, [u32;3], [u8;3], (), dyn Any, a drop-counting type): value round trips through into_inner/into_raw/from_raw/leak/pin_in, '
                             'array<->slice conversions incl. refused lengths, Vec->boxed slice followed by further arena allocations, downcast hit and miss, drop exactly once, and '
                             'the bump finger unchanged by Box drop.'),
-    'C16': dict(v=['vecpanic', 'strretain', 'drainfilter', 'dedup'], level='proof', k_quick=['k_cb_retain_len_zero'], k_thorough=['k_drop_forgotten_iterators'],
+    'C16': dict(v=['vecpanic', 'strretain', 'drainfilter', 'dedup', 'vecops'], level='proof', k_quick=['k_cb_retain_len_zero'], k_thorough=['k_drop_forgotten_iterators'],
                 technique='Verus callback-point contracts on the real truncate/extend_with bodies (what an unwind would restore); partial',
                 explanation='PARTIAL. Neither Verus nor Kani can execute an unwind. For the operations that protect themselves with a scope guard (Vec::truncate, '
                             'and through it clear/resize-shrink/dedup*; Vec::extend_with, i.e. resize-grow/extend_from_slice; String::retain; DrainFilter::next/drop, i.e. drain_filter and Vec::retain; the swap-only compaction loop behind dedup/dedup_by/dedup_by_key) every call into user code (element '
